@@ -11,10 +11,11 @@ from harness.props import c06, c10
 
 OBLIGATIONS = [
     "PgmVerif.C11_apply_acyclic", "PgmVerif.C11_hc_acyclic", "PgmVerif.C11_best_is_max", "PgmVerif.C11_loop_stops_below_eps",
+    "PgmVerif.C11_hc_lists", "PgmVerif.C11_delta_exact", "PgmVerif.C11_hc_monotone",
 ]
 PARTIAL = ["maximum-weight spanning tree optimality (networkx) is compared per case with the brute-force maximum of the Lean spec (<= 6 nodes)",
            "black-box runs with the real scores check the contract only (acyclic, lists, in-degree, score not lower than the start)",
-           "exact score deltas / list invariants of the loop are compared through the white-box trajectory, not yet theorems"]
+           "the in-degree bound is compared through the white-box trajectory and contract checks, not a theorem"]
 RULE = ("white-box: a StructureScore whose local scores are a random dyadic table (tie-free deltas) over 3-5 variables with random start DAG, "
         "fixed/black/white lists, max_indegree, tabu_length, epsilon, max_iter -> identical final DAG required; black-box: real scores on data; "
         "exhaustive search on 2-4 variables; Chow-Liu with synthetic distinct weights for every root; non-trivial = at least one move made; "
@@ -23,7 +24,9 @@ ASSUMPTIONS = ["start graphs satisfy the black list; epsilon >= 0"]
 BUDGET_QUICK = 90
 LEVEL_TEXT = ("Kernel-checked: applying a legal add / remove / flip (guarded by the has_path tests of the model) keeps the graph acyclic, hence "
               "the hill-climbing loop returns an acyclic graph from every acyclic start for every score table, option set and iteration bound; "
-              "the chosen operation has the maximal delta; when the loop stops before max_iter every candidate delta is below epsilon. The "
+              "the chosen operation has the maximal delta; when the loop stops before max_iter every candidate delta is below epsilon; fixed edges "
+              "are never lost and every new edge is white-listed and not black-listed; the reported delta is exactly score(after)-score(before) "
+              "for a decomposable score, so with epsilon >= 0 the score never decreases. The "
               "implementation is tied by a white-box stream (table-driven StructureScore, identical final DAG required when deltas are "
               "tie-free) and by contract checks (lists, in-degree, monotone score, local optimum with tabu disabled); exhaustive search is "
               "compared with the model's maximum over all DAGs; Chow-Liu trees with the brute-force maximum spanning weight and the BFS "
